@@ -46,6 +46,11 @@ def run_units_native(units, tier, work, only_props=None, tag='n'):
     lock = open(os.path.join(CACHE, 'native.lock'), 'w')
     fcntl.flock(lock, fcntl.LOCK_EX)
     try:
+        # the target dir is shared between checks: refresh the mtimes INSIDE the critical section (and strictly after
+        # anything the previous holder wrote), or cargo may take the `pdf` library another check built from ANOTHER tree
+        # for fresh -- a changed tree tested against the unchanged library, or the reverse
+        time.sleep(1.1)
+        subprocess.run(['find', os.path.join(dst, 'pdf'), os.path.join(dst, 'pdf_derive'), '-name', '*.rs', '-exec', 'touch', '{}', '+'], check=False)
         for name, (path, unit, tests) in sel.items():
             res = {'unit': name + ':native', 'status': 'ok', 'obligations': [], 'notes': [], 'trusted': [],
                    'functions': [], 'cmds': [], 'smt_s': 0.0, 'replay_extra': {}}
